@@ -470,6 +470,157 @@ Theorem owner_annotation_refuted :
   /\ phase_owner_reads false (AJSON (JArr [JInt 1])) None = Panic S_bx_a_getOwnerReferences_panic.
 Proof. vm_compute. repeat split; reflexivity. Qed.
 
+(* ------------------------------------------------------------------ (6) include recursion guard *)
+
+Lemma upd_same c n v : upd c n v n = v.
+Proof. unfold upd. now rewrite Nat.eqb_refl. Qed.
+Lemma upd_other c n v m : m <> n -> upd c n v m = c m.
+Proof. intros H. unfold upd. apply Nat.eqb_neq in H. now rewrite H. Qed.
+
+(** with decrement-on-exit a name's counter is the number of its active includes *)
+Definition counts_stack (st : gstate) : Prop := forall n, g_count st n = count_occ Nat.eq_dec (g_stack st) n.
+
+Ltac split_ltb H L := match type of H with context [if ?c then _ else _] => destruct c eqn:L end.
+
+Lemma gstep_counts limit st op st' :
+  counts_stack st -> gstep Decrement limit st op = Some st' -> counts_stack st'.
+Proof.
+  intros Inv H. destruct op as [n|]; unfold gstep in H.
+  - split_ltb H L; [discriminate|]. injection H as <-. intros m. cbn.
+    destruct (Nat.eq_dec n m) as [->|Hne].
+    + rewrite upd_same. now rewrite Inv.
+    + rewrite upd_other by congruence. apply Inv.
+  - destruct (g_stack st) as [|n rest] eqn:E; [injection H as <-; exact Inv|]. injection H as <-. intros m. cbn.
+    pose proof (Inv m) as Hm. rewrite E in Hm. cbn in Hm.
+    destruct (Nat.eq_dec n m) as [->|Hne].
+    + rewrite upd_same. rewrite Hm. reflexivity.
+    + rewrite upd_other by congruence. exact Hm.
+Qed.
+
+Definition per_name_bounded (limit : nat) (st : gstate) : Prop :=
+  forall n, count_occ Nat.eq_dec (g_stack st) n <= S limit.
+
+Lemma gstep_bounded limit st op st' :
+  counts_stack st -> per_name_bounded limit st -> gstep Decrement limit st op = Some st' -> per_name_bounded limit st'.
+Proof.
+  intros Inv B H. destruct op as [n|]; unfold gstep in H.
+  - split_ltb H L; [discriminate|]. injection H as <-. intros m. cbn.
+    apply Nat.ltb_ge in L. destruct (Nat.eq_dec n m) as [->|Hne]; [rewrite <- Inv; lia|apply B].
+  - destruct (g_stack st) as [|n rest] eqn:E; [injection H as <-; exact B|]. injection H as <-. intros m. cbn.
+    pose proof (B m) as Hm. rewrite E in Hm. cbn in Hm. destruct (Nat.eq_dec n m); lia.
+Qed.
+
+Lemma grun_invariants limit : forall ops st,
+  counts_stack st -> per_name_bounded limit st ->
+  counts_stack (grun Decrement limit ops st) /\ per_name_bounded limit (grun Decrement limit ops st).
+Proof.
+  induction ops as [|op rest IH]; intros st Inv B; cbn; [now split|].
+  destruct (gstep Decrement limit st op) as [st'|] eqn:E; [|now split].
+  apply IH; [eapply gstep_counts|eapply gstep_bounded]; eassumption.
+Qed.
+
+Lemma length_remove_count (a : nat) : forall l,
+  List.length l = count_occ Nat.eq_dec l a + List.length (remove Nat.eq_dec a l).
+Proof.
+  induction l as [|x l IH]; cbn; [reflexivity|].
+  destruct (Nat.eq_dec x a) as [->|Hne]; destruct (Nat.eq_dec a a) as [_|F]; try congruence.
+  - destruct (Nat.eq_dec a a); [lia|congruence].
+  - destruct (Nat.eq_dec a x); [congruence|]. cbn. lia.
+Qed.
+
+Lemma count_occ_remove_le (a : nat) : forall l n,
+  count_occ Nat.eq_dec (remove Nat.eq_dec a l) n <= count_occ Nat.eq_dec l n.
+Proof.
+  induction l as [|x l IH]; intros n; cbn; [lia|].
+  destruct (Nat.eq_dec a x); cbn; specialize (IH n); destruct (Nat.eq_dec x n); lia.
+Qed.
+
+Lemma length_le_names : forall names l k,
+  NoDup names -> incl l names -> (forall n, count_occ Nat.eq_dec l n <= k) -> List.length l <= k * List.length names.
+Proof.
+  induction names as [|a ns IH]; intros l k Hnd Hin Hc.
+  - destruct l as [|x l]; [cbn; lia|]. exfalso. apply (Hin x). now left.
+  - rewrite (length_remove_count a l). inversion Hnd as [|? ? Hna Hnd']; subst.
+    assert (Hl : List.length (remove Nat.eq_dec a l) <= k * List.length ns).
+    { apply IH; [assumption| |intros n; etransitivity; [apply count_occ_remove_le|apply Hc]].
+      intros x Hx. apply in_remove in Hx as [Hx Hne]. destruct (Hin x Hx) as [->|H]; [congruence|assumption]. }
+    specialize (Hc a). cbn [List.length]. rewrite Nat.mul_succ_r. lia.
+Qed.
+
+Lemma grun_stack_names limit names : forall ops st,
+  (forall n, In (Enter n) ops -> In n names) -> incl (g_stack st) names ->
+  incl (g_stack (grun Decrement limit ops st)) names.
+Proof.
+  induction ops as [|op rest IH]; intros st Hops Hst; cbn; [assumption|].
+  destruct (gstep Decrement limit st op) as [st'|] eqn:E; [|assumption].
+  apply IH; [intros n Hn; apply Hops; now right|].
+  destruct op as [n|]; unfold gstep in E.
+  - split_ltb E L; [discriminate|]. injection E as <-. cbn.
+    intros x [<-|Hx]; [apply Hops; now left|now apply Hst].
+  - destruct (g_stack st) as [|n r] eqn:S; injection E as <-; cbn; [now rewrite S|].
+    intros x Hx. apply Hst. now right.
+Qed.
+
+(** The guard bounds the nesting: whatever a template does (any sequence of includes and returns over the
+    helper names [names]), at no point are more than (limit + 1) * |names| includes active. Every prefix of
+    a render is itself such a sequence, so this bounds the deepest nesting of the whole render. *)
+Theorem include_depth_bounded : forall limit names ops,
+  NoDup names -> (forall n, In (Enter n) ops -> In n names) ->
+  depth (grun Decrement limit ops g_init) <= S limit * List.length names.
+Proof.
+  intros limit names ops Hnd Hops. unfold depth.
+  assert (I0 : counts_stack g_init) by (intros n; reflexivity).
+  assert (B0 : per_name_bounded limit g_init) by (intros n; cbn; lia).
+  destruct (grun_invariants limit ops g_init I0 B0) as [_ B].
+  apply length_le_names; [assumption| |exact B].
+  apply grun_stack_names; [assumption|intros x []].
+Qed.
+
+(** per name: never more than limit + 1 active includes of the same helper *)
+Theorem include_per_name_bounded : forall limit ops n,
+  count_occ Nat.eq_dec (g_stack (grun Decrement limit ops g_init)) n <= S limit.
+Proof.
+  intros limit ops n.
+  assert (I0 : counts_stack g_init) by (intros m; reflexivity).
+  assert (B0 : per_name_bounded limit g_init) by (intros m; cbn; lia).
+  now destruct (grun_invariants limit ops g_init I0 B0) as [_ B].
+Qed.
+
+(** REFUTED for the delete-on-exit shape (seed C19-E): one helper that includes itself for a call that returns
+    and then includes itself again nests without bound - the counter never exceeds 2. *)
+Lemma leaf_first_grows limit : 1 <= limit -> forall d st,
+  g_count st 0 = 0 -> depth (grun Delete limit (leaf_first_ops d) st) = d + depth st
+  /\ g_count (grun Delete limit (leaf_first_ops d) st) 0 = 0.
+Proof.
+  intros Hl. induction d as [|d IH]; intros st H0; cbn [leaf_first_ops grun]; [split; [reflexivity|assumption]|].
+  cbn [gstep]. rewrite H0. replace (Nat.ltb limit 0) with false by (symmetry; apply Nat.ltb_ge; lia).
+  cbn [g_count g_stack grun gstep]. rewrite upd_same.
+  replace (Nat.ltb limit 1) with false by (symmetry; apply Nat.ltb_ge; lia).
+  cbn [g_count g_stack grun gstep].
+  match goal with |- context [grun Delete limit (leaf_first_ops d) ?s] => destruct (IH s) as [D C] end.
+  { cbn. first [reflexivity | apply upd_same]. }
+  split; [rewrite D; unfold depth; cbn; lia|exact C].
+Qed.
+
+Theorem delete_on_exit_unbounded_refuted : forall limit d, 1 <= limit ->
+  depth (grun Delete limit (leaf_first_ops d) g_init) = d.
+Proof.
+  intros limit d Hl. destruct (leaf_first_grows limit Hl d g_init eq_refl) as [D _]. rewrite D. unfold depth. cbn. lia.
+Qed.
+
+(* ------------------------------------------------------------------ (7) uniqueInScope constraint *)
+
+Theorem check_unique_total : forall has_unique list_ok s, check_unique has_unique list_ok <> Panic s.
+Proof. intros [] [] s; discriminate. Qed.
+
+(** F-C19g (found by code reading, missed by the check until the controllers were driven; fixed by 9533cda) *)
+Theorem v0_cluster_deployer_refuted : forall list_ok, check_unique_v0_cluster true list_ok = Panic S_v0_pd_uncachedClient_unset.
+Proof. intros []; reflexivity. Qed.
+
+Theorem check_unique_agrees_with_v0 : forall has_unique list_ok,
+  has_unique = false -> check_unique has_unique list_ok = check_unique_v0_cluster has_unique list_ok.
+Proof. intros has_unique list_ok ->. reflexivity. Qed.
+
 (* ------------------------------------------------------------------ satisfiability of the hypotheses *)
 
 Example validated_objects_exist :
